@@ -3,7 +3,7 @@
    established by the differential run on timed scenarios; what is proved here is the test every timeout decision goes through. *)
 From Coq Require Import ZArith NArith List Bool.
 Import ListNotations.
-From EIO Require Import Server ServerInv ServerProofs ServerCor ServerTiming.
+From EIO Require Import Server ServerInv ServerProofs ServerCor ServerTiming ServerUpg ServerHb ServerSvc.
 
 (* a session is found timed out exactly when a PING is outstanding and strictly more than ping_timeout has passed since it *)
 Theorem c07_expired_iff : forall cfg ss t,
@@ -28,7 +28,29 @@ Theorem c07_ping_rearmed : forall cfg me e i s, t_task e = TPingStart i ->
   (forall ss, alookup i (store s) = Some ss -> exists ss', alookup i (store s') = Some ss' /\ s_lastp ss' = None /\ s_q ss' = s_q ss /\ s_closed ss' = s_closed ss).
 Proof. exact ping_rearmed. Qed.
 
+(* for every history in which the clock does not run backwards (requests, frames, closes, API calls, cancellations, clock
+   advances) and every schedule: the heartbeat of an open session never stalls.  As long as the session is neither closing nor
+   closed, either a PING is outstanding (last_ping is set, so by c07_expired_iff every liveness test - each send, each sweep
+   of the monitor - finds the peer timed out once ping_timeout has passed without a PONG), or a task exists that re-arms the
+   heartbeat now or sends the next PING no later than ping_interval from now (c07_ping_rearmed: exactly ping_interval after
+   the OPEN / the processed PONG) *)
+Theorem c07_heartbeat_never_stalls : forall cfg ops, forward_history ops ->
+  let s := fst (run_sched cfg ops (init cfg) []) in
+  forall i ss, alookup i (store s) = Some ss -> s_closing ss = false -> s_closed ss = false ->
+  (exists p, s_lastp ss = Some p) \/ ping_pending cfg s i.
+Proof. exact heartbeat_never_stalls. Qed.
+
+(* for every history and every schedule: with client monitoring configured, the service task that sweeps the sessions for heartbeat
+   time-outs never goes away - it is still to be started (no session has connected yet), about to run for the first time, or
+   waiting for its next visit / its next idle period *)
+Theorem c07_monitor_never_dies : forall cfg ops, c_monitor cfg = true ->
+  let s := fst (run_sched cfg ops (init cfg) []) in
+  svc_pending s = true \/ exists t e, alookup t (tasks s) = Some e /\ monitor_task s t e.
+Proof. exact monitor_never_dies. Qed.
+
 Print Assumptions c07_expired_iff.
 Print Assumptions c07_live_peer_never_dropped.
 Print Assumptions c07_deadline_exact.
 Print Assumptions c07_ping_rearmed.
+Print Assumptions c07_heartbeat_never_stalls.
+Print Assumptions c07_monitor_never_dies.
